@@ -263,6 +263,89 @@ pub fn replay_pair(sub: &'static str) -> impl Fn(&Value, &Env) -> CaseResult {
     }
 }
 
+/// The public accessors of the value type agree with the model (they are what
+/// the evaluator is built from and what users call on results).
+fn variable_api(src: &mut Src, st: &mut Stats, _env: &Env) -> CaseResult {
+    use jmespath::Variable;
+    let doc = crate::gen_doc::gen_json(src, 0, &DocOpts::default());
+    let dt = doc.to_json();
+    let v = Variable::from_json(&dt).map_err(|m| Failure::new("variable-api", "harness-bad-doc", m, json!({"document": dt})))?;
+    st.eval();
+    let case = json!({"document": dt});
+    let bad = |what: &str| Err(Failure::new("variable-api", "variable-accessor-wrong", what.to_string(), json!({"document": dt})));
+    let tname = v.get_type().to_string();
+    if tname != doc.type_name() {
+        return bad(&format!("get_type() = {}", tname));
+    }
+    if v.is_truthy() != doc.truthy() {
+        return bad("is_truthy()");
+    }
+    let preds = [v.is_null(), v.is_boolean(), v.is_number(), v.is_string(), v.is_array(), v.is_object(), v.is_expref()];
+    let want = [doc.is_null(), matches!(doc, J::Bool(_)), matches!(doc, J::Num(_)), matches!(doc, J::Str(_)), matches!(doc, J::Arr(_)), matches!(doc, J::Obj(_)), false];
+    if preds != want {
+        return bad(&format!("is_* predicates {:?}", preds));
+    }
+    match &doc {
+        J::Obj(m) => {
+            let mut keys: Vec<String> = m.keys().cloned().collect();
+            keys.push(crate::gen_doc::gen_key(src, true));
+            keys.push(format!("{}x", keys[0].clone()));
+            for k in keys {
+                let got = crate::shape::var_to_j(&v.get_field(&k));
+                let want = m.get(&k).cloned().unwrap_or(J::Null);
+                if !got.exact_eq(&want) {
+                    return bad(&format!("get_field({:?}) = {}", k, got.to_json()));
+                }
+            }
+            if !v.get_index(0).is_null() || !v.get_negative_index(1).is_null() || v.slice(None, None, 1).is_some() {
+                return bad("index / slice of an object");
+            }
+        }
+        J::Arr(a) => {
+            for i in 0..a.len() + 2 {
+                let got = crate::shape::var_to_j(&v.get_index(i));
+                let want = a.get(i).cloned().unwrap_or(J::Null);
+                if !got.exact_eq(&want) {
+                    return bad(&format!("get_index({}) = {}", i, got.to_json()));
+                }
+                if i >= 1 {
+                    let got = crate::shape::var_to_j(&v.get_negative_index(i));
+                    let want = if i <= a.len() { a[a.len() - i].clone() } else { J::Null };
+                    if !got.exact_eq(&want) {
+                        return bad(&format!("get_negative_index({}) = {}", i, got.to_json()));
+                    }
+                }
+            }
+            if !v.get_field("a").is_null() {
+                return bad("get_field on an array");
+            }
+        }
+        _ => {
+            if !v.get_field("a").is_null() || !v.get_index(0).is_null() || !v.get_negative_index(1).is_null() || v.slice(None, None, 1).is_some() {
+                return bad("accessors on a scalar");
+            }
+        }
+    }
+    // as_* views
+    let views_ok = match &doc {
+        J::Str(s) => v.as_string().map(|x| x == s).unwrap_or(false) && v.as_number().is_none() && v.as_array().is_none(),
+        J::Num(n) => v.as_number() == Some(n.f()) && v.as_string().is_none(),
+        J::Bool(b2) => v.as_boolean() == Some(*b2),
+        J::Null => v.as_null().is_some() && v.as_boolean().is_none(),
+        J::Arr(a) => v.as_array().map(|x| x.len() == a.len()).unwrap_or(false) && v.as_object().is_none(),
+        J::Obj(o) => v.as_object().map(|x| x.len() == o.len()).unwrap_or(false) && v.as_array().is_none(),
+        _ => true,
+    };
+    if !views_ok {
+        return bad("as_* views");
+    }
+    let _ = case;
+    if st.nontrivial(&dt) {
+        st.sample(|| json!({"document": dt}));
+    }
+    Ok(())
+}
+
 /// Complete matrix of comparison operators over a pool of edge values (zero in
 /// its spellings, magnitudes next to zero, huge values, every type, values
 /// nested one level), through document fields and through literals.
@@ -500,6 +583,7 @@ pub fn property() -> Property {
                 keep_unreproducible: false,
             }),
             Sub::Bytes(BytesSub { name: "towers", f: towers, max_len: 64, quick: Budget { threads: 8, cases: 3000 }, thorough: Budget { threads: 16, cases: 150_000 }, keep_unreproducible: false }),
+            Sub::Bytes(BytesSub { name: "variable-api", f: variable_api, max_len: 600, quick: Budget { threads: 4, cases: 3000 }, thorough: Budget { threads: 16, cases: 100_000 }, keep_unreproducible: false }),
             Sub::Custom(CustomSub { name: "comparison-matrix", run: comparison_matrix, replay: replay_matrix }),
             Sub::Custom(CustomSub { name: "cross", run: cross, replay: replay_cross }),
             Sub::Custom(CustomSub { name: "repeats", run: repeats, replay: replay_repeat }),
